@@ -5,7 +5,7 @@ ID = "C01"
 BUILDS = ("pure", "compiled")
 RULE = ("every program of the base family up to size n plus every placement of <=k deviations from the C01 "
         "menu (all yield-structure shapes, None, re-yielded futures, shared tasks, try/except+raise, AsyncContext, "
-        "scoped override, synchronous re-entry, result(), third batch kind), under every flush schedule, 5 calling "
+        "scoped override, synchronous re-entry, result(), third batch kind; flush bodies that raise or re-enter the scheduler), under every flush schedule, 5 calling "
         "conventions and both builds; non-trivial = program whose exploration met a flush decision with >=2 pending kinds")
 EXPLANATION = "stateless DFS over flush schedules of the real scheduler; every execution compared with the sequential evaluator R1"
 ASSUMPTIONS = [
@@ -20,11 +20,14 @@ CONVS_ALL = ["call", "av", "yielded", "async_call", "async_call_sync"]
 
 # re-entry x contexts x try: the combinations the statement names explicitly, one size further than the full menu
 MENU_RE = ["ins:sync", "wrap:S0", "wrap:A", "wrap:try", "ins:raise", "ins:res"]
+# flush bodies that fail (Exception / BaseException) or re-enter the scheduler synchronously, and the handlers around them
+MENU_FL = ["flush:nested", "flush:hooknested", "flush:raise", "flush:raiseB", "wrap:try", "ins:sync"]
 LADDER = {
     "quick": [(5, 0, ["call", "yielded"]), (4, 0, CONVS_ALL), (3, 1, ["call", "av"]), (2, 2, ["call"]),
-              (3, 2, ["call"], MENU_RE)],
+              (3, 2, ["call"], MENU_RE), (4, 1, ["call", "yielded"], MENU_FL), (3, 2, ["call"], MENU_FL)],
     "thorough": [(6, 0, ["call", "yielded"]), (5, 0, CONVS_ALL), (4, 1, ["call", "av"]), (3, 2, ["call"]), (2, 3, ["call"]),
-                 (4, 2, ["call"], MENU_RE), (3, 3, ["call"], MENU_RE)],
+                 (4, 2, ["call"], MENU_RE), (3, 3, ["call"], MENU_RE),
+                 (5, 1, ["call", "yielded"], MENU_FL), (4, 2, ["call"], MENU_FL), (3, 3, ["call"], MENU_FL)],
 }
 
 
